@@ -19,7 +19,7 @@ QArg = Opaque("Any")
 Any = Opaque("Any")
 classdef("liquer.context.Vars", fields={})
 classdef("liquer.context.Context",
-         fields=dict(query=Opt(Ref("Query")), raw_query=Opt(Str), status=Any, vars=Ref("Vars"), evaluated_key=Opt(Str), cwd_key=Opt(Str),
+         fields=dict(query=Opt(Ref("Query")), raw_query=Opt(Str), status=Str, _metadata=Any, vars=Ref("Vars"), evaluated_key=Opt(Str), cwd_key=Opt(Str),
                      enable_store_metadata=Bool, parent_query=Opt(Str), store_key=Opt(Str), store_to=Opt(Any), started=Str,
                      is_error=Bool, caching=Bool))
 CX = Ref("Context")
